@@ -305,7 +305,7 @@ Proof. unfold listing. induction (filter _ l) as [|x r IH]; simpl; [reflexivity 
 (* operations that do not concern the binding registry *)
 Definition bind_neutral (o : op) : bool :=
   match o with
-  | BindCall _ _ _ _ | BindDelete _ _ _ _ | Connect _ | Disconnect _ | DiscoveryNotify _ _ _ _ => false
+  | BindCall _ _ _ _ | BindDelete _ _ _ _ | Connect _ | Disconnect _ | DiscoveryNotify _ _ _ _ | DiscoveryReply _ _ => false
   | _ => true
   end.
 
@@ -316,13 +316,6 @@ Proof.
   - (* AddLocalEntity *) destruct (existsb _ (lents s)); split; try reflexivity; constructor; reflexivity.
   - (* AddLocalFeature *) destruct (find _ (lents s)); split; try reflexivity; constructor; reflexivity.
   - (* AddFunction *) split; [constructor; reflexivity | reflexivity].
-  - (* DiscoveryReply *)
-    unfold with_source. destruct (find_peer s p) as [pe|]; [|split; [apply bframe_refl | reflexivity]].
-    destruct (remote_feature pe (nm_addr None)); [|split; [apply bframe_refl | reflexivity]].
-    destruct (add_entities _ m (dm_ents m)) as [pe1 created].
-    assert (Hq : no_bindev (OEvent EvDevice ChAdd p None None None :: map (ev_entity ChAdd pe1) created)).
-    { unfold no_bindev. simpl. induction created as [|x l IH]; simpl; [reflexivity | exact IH]. }
-    destruct (p_addr pe1); (split; [constructor; reflexivity | exact Hq]).
   - (* SubCall *) apply registry_call_bq. intros. apply add_subscription_bq.
   - (* SubDelete *) apply registry_call_bq. intros. apply remove_subscription_bq.
   - (* SetData *)
@@ -389,15 +382,33 @@ Qed.
 Lemma drop_gone_nil p r : drop_gone p [] r = r.
 Proof. unfold drop_gone. apply filter_all. intros x _. simpl. rewrite andb_false_r. reflexivity. Qed.
 
-(* a discovery reply announces no entity as removed (Model/Stack.v as of this round) *)
-Lemma reply_no_gone s p m : gone_seen (snd (step s (DiscoveryReply p m))) = [].
+(* a discovery reply: completion of the node-management address, then the entities it no longer lists *)
+Lemma discovery_reply_binds s p m : RegOK s ->
+  binds (fst (step s (DiscoveryReply p m))) = drop p (gone_of (snd (step s (DiscoveryReply p m)))) (completed s p m (binds s)).
+Proof. intros Hok. exact (proj1 (proj2 (proj2 (reply_step_spec s p m Hok)))). Qed.
+
+Lemma strip_complete p d x : strip (complete_one p (Some d) x) = complete_bentry p d (strip x).
 Proof.
-  cbn [step]. unfold with_source. destruct (find_peer s p) as [pe|]; [|reflexivity].
-  destruct (remote_feature pe (nm_addr None)); [|reflexivity].
-  destruct (add_entities _ m (dm_ents m)) as [pe1 created].
-  assert (H : gone_seen (OEvent EvDevice ChAdd p None None None :: map (ev_entity ChAdd pe1) created) = []).
-  { simpl. induction created as [|x l IH]; simpl; [reflexivity | exact IH]. }
-  destruct (p_addr pe1); exact H.
+  unfold complete_one, complete_bentry, complete_cli, strip. simpl.
+  destruct (N.eqb (e_ski x) p); simpl; [|reflexivity].
+  destruct (eqb_faddr (e_cli x) (nm_addr None)); reflexivity.
+Qed.
+
+Lemma after_reply_abs s p m l :
+  after_reply s p m (snd (step s (DiscoveryReply p m))) (abs l) =
+  abs (drop p (gone_of (snd (step s (DiscoveryReply p m)))) (completed s p m l)).
+Proof.
+  unfold after_reply. rewrite nm_completion_model. unfold drop_gone, drop, completed.
+  rewrite <- (filter_abs (fun x => negb (N.eqb (b_ski x) p && existsb (eqb_eaddr (fa_ent (b_cli x))) (gone_of (snd (step s (DiscoveryReply p m)))))))
+    by (intros x; reflexivity).
+  f_equal. destruct (model_completion s p m) as [d|]; [|reflexivity].
+  unfold complete_nm_addr, abs. rewrite !map_map. apply map_ext. intros x. symmetry. apply strip_complete.
+Qed.
+
+Lemma completed_srv s p m l : map e_srv (completed s p m l) = map e_srv l.
+Proof.
+  unfold completed. destruct (model_completion s p m) as [d|]; [|reflexivity].
+  unfold complete_nm_addr. rewrite map_map. apply map_ext. intros x. apply complete_one_props.
 Qed.
 
 Lemma drop_peer_abs p l : drop_peer p (abs l) = abs (not_of p l).
@@ -424,6 +435,9 @@ Proof.
     simpl. unfold BSingle. rewrite H1. exact Hb. }
   destruct o; try discriminate; clear En.
   - apply (bsingle_filter s _ (fun x => negb (N.eqb (e_ski x) p))); [apply connect_binds; exact Hok | exact Hb].
+  - (* DiscoveryReply *)
+    unfold BSingle. rewrite (discovery_reply_binds s p m Hok). unfold drop.
+    apply nodup_map_filter. rewrite completed_srv. exact Hb.
   - apply (bsingle_filter s _ (fun x => negb (N.eqb (e_ski x) p && existsb (eqb_eaddr (fa_ent (e_cli x)))
              (gone_of (snd (step s (DiscoveryNotify p ctr ack m))))))); [apply discovery_notify_binds; exact Hok | exact Hb].
   - (* BindCall *)
